@@ -208,6 +208,12 @@ func c07Sequential(ev *vlib.Evidence, driver string, idx int, failAt int) {
 			}
 			paidOK++
 		}
+		if c := w.Deposits.Corrupted(); len(c) > 0 {
+			d := detail()
+			d["deposits"] = c
+			ev.Violate("sequential:deposit-cache-modified-by-the-pool", d)
+			return
+		}
 		// conservation
 		paid := paidTotal(w.SettleLog(), cw.acct)
 		lhs := new(big.Int).Add(new(big.Int).Add(paid, fees), cw.balance())
